@@ -4,7 +4,42 @@
 use crate::el::*;
 use ndarray::{ArrayD, IxDyn};
 
-pub const AXIS_CLASSES: [&str; 7] = ["unit", "uniform", "geometric", "clustered", "random", "mixed", "dyadic"];
+pub const AXIS_CLASSES: [&str; 9] = ["unit", "uniform", "geometric", "clustered", "random", "mixed", "dyadic", "indexlike", "meanfirst"];
+
+/// Uneven axes with a "coincidental" global structure that cheap shortcuts may mistake for an even / index axis:
+/// `index_like`: first knot a, last knot a + (n-1) (a = 0 half of the time), interior knots uneven;
+/// `mean_first`: the first step equals the mean step although the axis is uneven.
+/// Knots lie on a dyadic grid (exact in f32 and f64); neighbouring steps differ by a factor of at most 8.
+pub fn axis_coincidence(rng: &mut Rng, n: usize, mean_first: bool) -> Vec<f64> {
+    if n < 4 {
+        // too short to be uneven with the required coincidence: plain unit axis
+        return (0..n).map(|i| i as f64).collect();
+    }
+    for _ in 0..200 {
+        let mut steps: Vec<f64> = (0..n - 1).map(|_| *rng.pick(&[0.5, 0.75, 1.0, 1.25, 1.5, 2.0])).collect();
+        if mean_first {
+            steps[0] = 1.0;
+        }
+        let want = (n - 1) as f64;
+        let others: f64 = steps[..n - 2].iter().sum();
+        let last = want - others;
+        if !(0.25..=4.0).contains(&last) {
+            continue;
+        }
+        steps[n - 2] = last;
+        if steps.iter().all(|&s| (s - 1.0).abs() < 1e-12) {
+            continue; // accidentally even
+        }
+        let a = if rng.bool() { 0.0 } else { rng.range(-6, 6) as f64 * 0.5 };
+        let mut x = vec![a];
+        for s in &steps {
+            let l = *x.last().unwrap();
+            x.push(l + s);
+        }
+        return x;
+    }
+    (0..n).map(|i| i as f64).collect()
+}
 
 /// a strictly increasing axis of n >= 1 points of the given spacing class (as f64)
 pub fn axis_f64(rng: &mut Rng, n: usize, class: &str) -> Vec<f64> {
@@ -73,6 +108,8 @@ pub fn axis_f64(rng: &mut Rng, n: usize, class: &str) -> Vec<f64> {
                 k += rng.range(1, 64);
             }
         }
+        "indexlike" => x = axis_coincidence(rng, n, false),
+        "meanfirst" => x = axis_coincidence(rng, n, true),
         _ => {
             // "random": sorted random points with a bounded mesh ratio (<= 2^6)
             let mut v = rng.uniform(-50.0, 50.0);
